@@ -44,6 +44,9 @@ Step1(o) == IF o \in {"Generify+Simplify", "Generify+Alter"} THEN "alt.Generify"
 Step2(o) == IF o \in {"Generify+Simplify", "GenAlter+Simplify"} THEN "gen.Simplify" ELSE "gen.Alter"
 LocOf(r) == <<r[1].gi, r[1].to>>
 
+\* B6: under an option set of ConvOpts the result's value is not judged (and the model's result has another shape),
+\* the copy laws are: the model's Copy never shares a cell, so nothing a mutation does on one side may show on the other
+Optd(L) == L.opt # "none"
 JudgeMut(L, m) ==
    IF m.pan THEN Bad("panic", <<"mutate", m.side, m.kind>>) ELSE
    LET root   == IF m.side = "in" THEN inp ELSE res
@@ -57,8 +60,8 @@ JudgeMut(L, m) ==
        modelOther == TreeOf(IF m.side = "in" THEN res ELSE inp, h2)
        cellG  == NodeAt(before, m.path).g IN
    (IF FirstDiff(MutTree(before, m.path, m.kind), after) # <<>> THEN Bad("harness", <<"mutation-not-visible", m.side, m.kind>>) ELSE <<>>)
-   \o (IF modelOther = (IF m.side = "in" THEN snapRes ELSE snapIn) /\ FirstDiff(otherB, otherA) # <<>>
-       THEN Bad("alias", <<"mutate", m.side, cellG, m.kind>>) ELSE <<>>)
+   \o (IF (Optd(L) \/ modelOther = (IF m.side = "in" THEN snapRes ELSE snapIn)) /\ FirstDiff(otherB, otherA) # <<>>
+       THEN Bad("alias", (IF Optd(L) THEN <<"opt", L.opt>> ELSE <<>>) \o <<"mutate", m.side, cellG, m.kind>>) ELSE <<>>)
 
 RECURSIVE JudgeMuts(_, _)
 JudgeMuts(L, k) == IF k > Len(L.muts) THEN <<>> ELSE JudgeMut(L, L.muts[k]) \o JudgeMuts(L, k + 1)
@@ -67,14 +70,19 @@ JudgeMuts(L, k) == IF k > Len(L.muts) THEN <<>> ELSE JudgeMut(L, L.muts[k]) \o J
 \* attributed to the operation that caused it
 JudgeConv(L) ==
    IF L.pan THEN Bad("panic", <<"op">>) ELSE
-   LET fb == IF op \in Chains
+   LET fb == IF Optd(L) THEN (IF L.opt \in ConvOpts THEN <<>> ELSE Bad("harness", <<"unknown-option-set">>))
+             ELSE IF op \in Chains
              THEN (LET f1 == FirstBad(Step1(op), L.in, L.mid) IN
                    IF f1 # <<>> THEN BadA(Step1(op), "wrong-value", LocOf(f1))
                    ELSE LET f2 == FirstBad(Step2(op), L.mid, L.res) IN
                         IF f2 # <<>> THEN BadA(Step2(op), "wrong-value", LocOf(f2)) ELSE <<>>)
              ELSE (LET f == FirstBad(op, L.in, L.res) IN IF f # <<>> THEN Bad("wrong-value", LocOf(f)) ELSE <<>>) IN
    fb
-   \o (IF op \in CopyOps /\ FirstDiff(L.in, L.in1) # <<>> THEN Bad("input-changed", LocOf(FirstDiff(L.in, L.in1))) ELSE <<>>)
+   \* Generify and GenAlter denote the same gen tree, leaf by leaf (kinds, values, Go types, time locations)
+   \o (IF "twin" \in DOMAIN L /\ fb = <<>> /\ FirstDiff(L.res, L.twin) # <<>>
+       THEN BadA("alt.Generify=alt.GenAlter", "twin-differs", LocOf(FirstDiff(L.res, L.twin))) ELSE <<>>)
+   \o (IF op \in CopyOps /\ FirstDiff(L.in, L.in1) # <<>>
+       THEN Bad("input-changed", (IF Optd(L) THEN <<"opt", L.opt>> ELSE <<>>) \o LocOf(FirstDiff(L.in, L.in1))) ELSE <<>>)
    \o (IF op \in CopyOps /\ fb = <<>> THEN JudgeMuts(L, 1) ELSE <<>>)
 
 TJudge == /\ pc = "done" /\ IsConv
